@@ -13,12 +13,19 @@ def groups():
     g2 = {"package": "github.com/bokysan/socketace/v2/internal/client/upstream", "files": ["../C04/c04_env.go", "../C04/c04_client.go", "c05_client.go"], "native_replay": False,
           "init_allow": ["github.com/gorilla/websocket"], "stubs": mkspec_c04.upstream_stubs(),
           "instances": [{"entry": "VP_C05_Client", "params": {}, "grid": {"kind": list(range(16)), "offer": [0, 1], "insecure": [0, 1]}, "timeout_s": 100, "expect_reach": ["done"]}]}
-    return [g1, g2]
+    from srvstubs import server_stubs, SERVER_PKG, SERVER_INIT, P
+    X = [{"target": "crypto/tls.X509KeyPair", "with": P + "vp05SrvX509KeyPair"}, {"target": "crypto/x509.NewCertPool", "with": P + "vp05SrvNewCertPool"},
+         {"target": "(*crypto/x509.CertPool).AppendCertsFromPEM", "with": P + "vp05SrvAppendCertsFromPEM"}]
+    g3 = {"package": SERVER_PKG, "files": ["../C03/srv_env.go", "../C03/c03_routing.go", "c05_server.go"], "native_replay": False, "init_allow": SERVER_INIT,
+          "stubs": server_stubs() + X,
+          "instances": [{"entry": "VP_C05_ServerEndpoints", "params": {}, "grid": {"kind": list(range(10))}, "timeout_s": 300, "expect_reach": ["configs-checked"]}]}
+    return [g1, g2, g3]
 def main(extra_groups=()):
     spec = {
      "property": "C05", "groups": groups() + list(extra_groups),
      "bounds": {
       "configuration": "ClientConfig/ServerConfig.GetTlsConfig for every combination of {certificate configured, CA configured, insecure / require-client-cert flag} x {key pair loads or not, CA parses or not}",
+      "server": "every server kind (tcp, tcp+tls, unix+tls, udp with and without secret, stdin, stdin+tls, http, https, dns+tcp+tls) started for real with certificate material, a CA configured or not and require-client-cert set or not (symbolic), a client asking for StartTLS on the plain endpoints: every tls.Config reaching tls.Listen / ServeTLS / tls.Server / the DNS server has ClientAuth = RequireAndVerifyClientCert iff the option is set, ClientCAs iff a CA is configured, and the server certificate; the UDP cipher key equals the client's derivation",
       "client": "every upstream kind (tcp, tcp+tls, unix+tls, tcp6+tls, IPv6 literal, stdio, stdio+tls, udp with five user-info forms, http, https, ws+tls, wss) x StartTLS offered or not x insecure flag x TLS handshake outcome: the tls.Config that reaches tls.Dial, the websocket dialer and tls.Client (InsecureSkipVerify, ServerName, identity with the manager's config), and the key the UDP cipher is built from",
       "outside": "certificate chain building, expiry and host-name matching themselves (crypto/x509), what KCP does with the cipher; scenarios/c05_starttls_servername_test.go exercises the real crypto/tls once"
      },
